@@ -10,10 +10,13 @@ use pasfmt_core::traits::LogicalLineFileFormatter;
 pub fn run_spacing<const N: usize>(kinds: &[TokenType; N], orig: &[(u16, u16, u16, u16); N]) -> [u16; N] {
     let mut tokens = Vec::with_capacity(N);
     let mut fmt = Vec::with_capacity(N);
+    // the `ignored` flag of every token is symbolic: the rule must hand it back unchanged (K-IGN)
+    let mut ign = [false; N];
     let mut k = 0;
     while k < N {
+        ign[k] = kani::any();
         tokens.push(tok("ab", 0, kinds[k]));
-        fmt.push(fd(false, orig[k].0, orig[k].1, orig[k].2, orig[k].3));
+        fmt.push(fd(ign[k], orig[k].0, orig[k].1, orig[k].2, orig[k].3));
         k += 1;
     }
     let mut ft = FormattedTokens::verif_new(leak_tokens(tokens), fmt);
@@ -23,6 +26,7 @@ pub fn run_spacing<const N: usize>(kinds: &[TokenType; N], orig: &[(u16, u16, u1
     while k < N {
         let d = ft.get_formatting_data(k).unwrap();
         assert!(d.newlines_before == orig[k].0 && d.indentations_before == orig[k].1 && d.continuations_before == orig[k].2, "spacing rule touched a non-space counter");
+        assert!(d.is_ignored() == ign[k], "spacing rule changed the ignored flag of a token");
         out[k] = d.spaces_before;
         k += 1;
     }
